@@ -26,6 +26,8 @@ var menu = []string{
 	// references made inside a sub-query are references too
 	// an edit that makes a reference chain of depth two / three (the edit walks the graph, adding a tag does not)
 	"updtag:tag/t=tag:b", "updtag:tag/t=-tag:c", "updtag:tag/c=tag:b",
+	// a definition that refers to an existing and to a missing tag (the order in which the service visits them is a map order)
+	"addtag:tag/e2=tag:a tag:zz", "addtag:tag/e3=-tag:zz tag:b", "updtag:tag/c=tag:a tag:zz",
 	"addtag:tag/q=@x:tag:a", "updtag:tag/a=tag:q", "updtag:tag/q=@x:tag:b", "deltag:tag/q",
 	"updtag:tag/a=tag:b", "updtag:tag/a=tag:zz", "updtag:tag/a=sport:80", "updtag:tag/b=cport:2", "updtag:tag/zz=cport:1", "updtag:tag/a=tag:a", "updtag:tag/b=tag:c", "updtag:mark/m=cport:1",
 	"color:tag/a=#123456", "color:tag/zz=#123456",
@@ -223,6 +225,20 @@ func runCase(convBin string, path []int, mode int) mc.CaseResult {
 			after := tagDump(st)
 			if failed && before != after {
 				bad("c11.error-but-changed", "call %s returned an error but the tags changed:\n--- before\n%s--- after\n%s", result, before, after)
+			}
+			if failed && before == after {
+				// a rejected call left everything as it was, so it can be made again: the order in which the
+				// service walks its maps while validating differs from call to call
+				for rep := 0; rep < 7 && before == after; rep++ {
+					if err := w.ApplyAPI(menu[c]); err != nil {
+						mc.Fatal("%s: %v", menu[c], err)
+					}
+					st = w.Mgr.VerifDump()
+					after = tagDump(st)
+					if before != after {
+						bad("c11.error-but-changed", "call %s returned an error, repeated %d more times it changed the tags:\n--- before\n%s--- after\n%s", result, rep+1, before, after)
+					}
+				}
 			}
 			if !failed {
 				res.Counters = map[string]int64{"applied": 1}
